@@ -36,7 +36,6 @@ func one(r *core.Report, rule, what string, fs []*ssa.Function) *ssa.Function {
 func findLifecycle(c *core.Ctx, r *core.Report, rule string) *lifecycleRoles {
 	ro := c.Roles()
 	l := &lifecycleRoles{ev: newEvents(c)}
-	l.exposer = one(r, rule, "EarlyExposer (invokes AddSingletonFactory)", ro.EarlyExposers())
 	l.accessor = one(r, rule, "CacheAccessor (invokes GetSingletonOrCreateByFactory)", ro.CacheAccessors())
 	l.injectors = ro.Populators()
 	if len(l.injectors) == 0 {
@@ -48,26 +47,22 @@ func findLifecycle(c *core.Ctx, r *core.Report, rule string) *lifecycleRoles {
 			r.Undecided(rule, "role:Creator", c.FnPos(l.accessor), "the factory handed to GetSingletonOrCreateByFactory is not a function literal")
 		}
 	}
-	if l.exposer != nil {
-		ex := l.exposer
-		l.popSite = oneSite(r, rule, "populate-site@"+core.FnName(ex), "site reaching PROPS+INJECT", l.ev.SitesReaching(ex, evProps, evInject), c, ex)
-		var initSites []*ssa.Call
-		for _, s := range l.ev.SitesReaching(ex, evBeforeInit) {
-			if l.ev.SiteReach(s).has(evAfterInit) {
-				initSites = append(initSites, s)
-			}
+	// stage routines by what they contain (whatever helpers they are split into): the smallest function of the factory
+	// package that reaches ...
+	pick := func(what string, preds ...func(*ssa.CallCommon) bool) *ssa.Function {
+		fs := lowestReaching(c, "container/factory", preds...)
+		if len(fs) != 1 {
+			r.Undecided(rule, "role:"+what, "", fmt.Sprintf("expected exactly one %s, found %d", what, len(fs)))
+			return nil
 		}
-		l.initSite = oneSite(r, rule, "init-site@"+core.FnName(ex), "site reaching BEFORE_INIT+AFTER_INIT", initSites, c, ex)
-		if l.popSite != nil {
-			l.populator = c.ResolvedCallee(l.popSite.Common())
-		}
-		if l.initSite != nil {
-			l.initFn = c.ResolvedCallee(l.initSite.Common())
-		}
-		if l.popSite != nil && l.populator == nil || l.initSite != nil && l.initFn == nil {
-			r.Undecided(rule, "role:Populator/InitFn", c.FnPos(ex), "population / initialization is not a static call from the creator")
-		}
+		return fs[0]
 	}
+	inv := func(m *types.Func) func(*ssa.CallCommon) bool {
+		return func(com *ssa.CallCommon) bool { return core.IsInvoke(com, m) }
+	}
+	l.exposer = pick("creation routine (registers the early factory, populates, initializes)", inv(ro.SCRAddFactory), inv(ro.IAProps), inv(ro.CPBeforeInit))
+	l.populator = pick("populator (property stage and injection)", inv(ro.IAProps), func(com *ssa.CallCommon) bool { return core.IsCallTo(com, ro.PropertyInject) })
+	l.initFn = pick("initialization routine (before-init and after-init dispatch)", inv(ro.CPBeforeInit), inv(ro.CPAfterInit), inv(ro.APS))
 	if l.exposer == nil || l.populator == nil || l.initFn == nil || l.accessor == nil || l.creator == nil || len(l.injectors) == 0 {
 		return nil
 	}
@@ -142,11 +137,21 @@ func c05(c *core.Ctx, r *core.Report) {
 		return "C05.R1a"
 	})
 
-	// ---- R1(b) EarlyExposer
+	// ---- R1(b) / R2: stage order in the creation routine (decision table of the routine with its helpers)
 	ex := l.exposer
-	popSite, initSite := l.popSite, l.initSite
-	r.Check(core.OnNilErrEdge(popSite, initSite), "C05.R1b", "populate-before-initialize@"+core.FnName(ex), c.Pos(initSite.Pos()),
-		"initialization is dominated by the nil-error edge of population: all injection points and configuration values are set first")
+	if xrs, _, xund := exposerTable(c, l); xund != "" {
+		r.Undecided("C05.R1b", "exposer-table@"+core.FnName(ex), c.FnPos(ex), "abstract interpretation left the model: "+xund)
+	} else {
+		xrs.report(c, r, ex, func(row string) string {
+			switch row {
+			case "stage-order":
+				return "C05.R1b"
+			case "failure-propagates":
+				return "C05.R2"
+			}
+			return ""
+		}, "exposer-table@"+core.FnName(ex), map[string]string{"stage-order": exposerRows["stage-order"], "failure-propagates": exposerRows["failure-propagates"]})
+	}
 
 	// ---- R1(c), R1(d), R3 and the initialization half of R2: decision table of the initialization function
 	maxProcs := 2
@@ -170,15 +175,6 @@ func c05(c *core.Ctx, r *core.Report) {
 			}
 			return ""
 		}, icons, initRows)
-	}
-
-	// ---- R2 must-stages in the creator
-	for _, ret := range core.Returns(ex) {
-		if core.ClassifyReturn(ret) == core.RetError {
-			continue
-		}
-		r.Check(core.OnNilErrEdge(popSite, ret) && core.OnNilErrEdge(initSite, ret), "C05.R2", "success-after-populate+initialize@"+core.FnName(ex), c.Pos(ret.Pos()),
-			"a component is handed back as created only after population and initialization both succeeded")
 	}
 
 	// ---- R4 single sites, single call chain
